@@ -246,8 +246,11 @@ def aggregate_local_results(scenario, gcID):
 
     # data about power in time windows
     if scenario.strategy_name == "peak_load_window":  # ToDo: Change to scenario.strat.uses_window
-        significance_threshold = ((max(scenario.totalLoad[gcID]) - scenario.strat.peak_power[gcID])
-                                  / max(scenario.totalLoad[gcID])) * 100
+        significance_threshold = 0
+        if max(scenario.totalLoad[gcID]) > 0:
+            significance_threshold = (
+                (max(scenario.totalLoad[gcID]) - scenario.strat.peak_power[gcID])
+                / max(scenario.totalLoad[gcID])) * 100
         json_results["peak load time windows"] = {
             "peak power in time windows": scenario.strat.peak_power[gcID],
             "unit": "kW",
